@@ -40,6 +40,8 @@ pub struct Cfg {
     pub wide_locks: bool,
     /// occasionally (1/12) a multisig with up to this many keys (0 = never)
     pub big_multi_n: usize,
+    /// multiplier for the weights of or_b / or_d / or_c / or_i / andor (1 = neutral)
+    pub or_boost: u32,
 }
 
 impl Cfg {
@@ -61,6 +63,7 @@ impl Cfg {
             xpub_chance: 1,
             wide_locks: true,
             big_multi_n: 20,
+            or_boost: 1,
         }
     }
     pub fn sane(ctx: Ctx, size: usize) -> Cfg {
@@ -357,7 +360,8 @@ fn gen_try(src: &mut Src, cfg: &Cfg, st: &mut State, want: Want, size: usize) ->
                 return leaf_b(src, cfg, st);
             }
             // weights: leaf, c:K, d:, j:, n:, t:, l:, u:, and_v, and_b, or_b, or_d, or_i, andor, thresh, and_n
-            let w = [3, 2, dup, 2, 1, 1, ori / 2, ori / 2, 4, 3, 3, 4, ori, 3, 4, 1];
+            let ob = cfg.or_boost.max(1);
+            let w = [3, 2, dup, 2, 1, 1, ori / 2, ori / 2, 4, 3, 3 * ob, 4 * ob, ori * ob, 3 * ob, 4, 1];
             match src.weighted(&w) {
                 0 => leaf_b(src, cfg, st),
                 1 => Node::Check(b(gen(src, cfg, st, W_K, size - 1))),
@@ -415,7 +419,8 @@ fn gen_try(src: &mut Src, cfg: &Cfg, st: &mut State, want: Want, size: usize) ->
             if size <= 1 {
                 return Node::Verify(b(leaf_b(src, cfg, st)));
             }
-            let w = [5, 3, 2, ori, 2];
+            let ob = cfg.or_boost.max(1);
+            let w = [5, 3, 2 * ob, ori * ob, 2 * ob];
             match src.weighted(&w) {
                 0 => Node::Verify(b(gen(src, cfg, st, Want { base: spec::B, props: want.props & (spec::Z | spec::O | spec::N) }, size - 1))),
                 1 => {
@@ -444,7 +449,8 @@ fn gen_try(src: &mut Src, cfg: &Cfg, st: &mut State, want: Want, size: usize) ->
             if size <= 1 {
                 return leaf_k(src, cfg, st);
             }
-            let w = [5, 2, ori, 2];
+            let ob = cfg.or_boost.max(1);
+            let w = [5, 2, ori * ob, 2 * ob];
             match src.weighted(&w) {
                 0 => leaf_k(src, cfg, st),
                 1 => {
@@ -622,6 +628,30 @@ pub fn gen_world(src: &mut Src, d: &MDesc) -> World {
     World { keys: keys_set, preimages, lock_time, sequence, tx_version }
 }
 
+/// A world that holds everything: all keys (all but one with chance 1/4), every preimage, and
+/// nLockTime / nSequence at the largest lock of the descriptor.
+pub fn gen_full_world(src: &mut Src, d: &MDesc) -> World {
+    let ctx = d.ctx();
+    let mut keys_set = BTreeSet::new();
+    let all = d.all_keys();
+    let skip = if !all.is_empty() && src.chance(1, 4) { Some(src.below(all.len())) } else { None };
+    for (i, k) in all.iter().enumerate() {
+        if Some(i) == skip {
+            continue;
+        }
+        if let Ok(kb) = crate::mirror::encode::key_bytes(k, ctx) {
+            if let Some(x) = keys::xonly_of(&kb) {
+                keys_set.insert(x);
+            }
+        }
+    }
+    let preimages: BTreeSet<[u8; 32]> = keys::u().preimages.iter().copied().collect();
+    let (afters, olders) = locks_of(&d.nodes());
+    let lock_time = afters.iter().copied().max().unwrap_or(0);
+    let sequence = olders.iter().copied().max().unwrap_or(0xffff_fffe);
+    World { keys: keys_set, preimages, lock_time, sequence, tx_version: 2 }
+}
+
 fn gen_lock_value(src: &mut Src, own: &[u32], others: &[u32]) -> u32 {
     if !own.is_empty() && src.chance(3, 4) {
         let t = *src.pick(own);
@@ -737,4 +767,134 @@ fn gen_pol(src: &mut Src, cfg: &PolCfg, st: &mut State, leaves: usize, depth: us
             MPol::Thresh(k, subs)
         }
     }
+}
+
+// ---------------------------------------------------------------------------------------
+// perturbation: trees that the specification need not type
+
+fn nth_mut(n: &mut Node, idx: &mut usize) -> Option<*mut Node> {
+    if *idx == 0 {
+        return Some(n as *mut Node);
+    }
+    *idx -= 1;
+    for c in n.children_mut() {
+        if let Some(p) = nth_mut(c, idx) {
+            return Some(p);
+        }
+    }
+    None
+}
+
+/// Applies 1..=2 random local edits (re-wrap, un-wrap, swap the combinator, swap children,
+/// replace a leaf) to a tree.  The result is in general NOT well typed; callers use it to probe
+/// what the library accepts beyond the generator's typed domain.
+pub fn perturb(src: &mut Src, cfg: &Cfg, node: &Node) -> Node {
+    let mut out = node.clone();
+    let edits = src.range(1, 2);
+    for _ in 0..edits {
+        let total = out.n_nodes();
+        let mut idx = src.below(total);
+        let p = match nth_mut(&mut out, &mut idx) {
+            Some(p) => p,
+            None => continue,
+        };
+        // SAFETY: `p` points into `out`, which is not otherwise borrowed here.
+        let target: &mut Node = unsafe { &mut *p };
+        let old = std::mem::replace(target, Node::False);
+        let mut st = State::new();
+        let wrap = |src: &mut Src, x: Node| -> Node {
+            match src.below(7) {
+                0 => Node::Alt(b(x)),
+                1 => Node::Swap(b(x)),
+                2 => Node::Check(b(x)),
+                3 => Node::DupIf(b(x)),
+                4 => Node::Verify(b(x)),
+                5 => Node::NonZero(b(x)),
+                _ => Node::ZeroNotEqual(b(x)),
+            }
+        };
+        let bin = |src: &mut Src, x: Box<Node>, y: Box<Node>| -> Node {
+            match src.below(6) {
+                0 => Node::AndV(x, y),
+                1 => Node::AndB(x, y),
+                2 => Node::OrB(x, y),
+                3 => Node::OrD(x, y),
+                4 => Node::OrC(x, y),
+                _ => Node::OrI(x, y),
+            }
+        };
+        let new = match old {
+            Node::Alt(x) | Node::Swap(x) | Node::Check(x) | Node::DupIf(x) | Node::Verify(x) | Node::NonZero(x) | Node::ZeroNotEqual(x) => {
+                match src.below(3) {
+                    0 => *x,              // un-wrap
+                    1 => wrap(src, *x),   // other wrapper
+                    _ => {
+                        let w = wrap(src, *x);
+                        wrap(src, w)
+                    }
+                }
+            }
+            Node::AndV(x, y) | Node::AndB(x, y) | Node::OrB(x, y) | Node::OrD(x, y) | Node::OrC(x, y) | Node::OrI(x, y) => match src.below(4) {
+                0 => bin(src, y, x),
+                1 => bin(src, x, y),
+                2 => Node::AndOr(x.clone(), y, x),
+                _ => Node::Thresh(src.range(1, 2), vec![*x, *y]),
+            },
+            Node::AndOr(x, y, z) => match src.below(3) {
+                0 => Node::AndOr(y, x, z),
+                1 => Node::AndOr(x, z, y),
+                _ => bin(src, x, y),
+            },
+            Node::Thresh(k, mut subs) => {
+                match src.below(4) {
+                    0 => {
+                        let l = subs.len();
+                        if l >= 2 {
+                            let i = src.below(l);
+                            let j = src.below(l);
+                            subs.swap(i, j);
+                        }
+                        Node::Thresh(k, subs)
+                    }
+                    1 => {
+                        // re-wrap one child
+                        let i = src.below(subs.len().max(1));
+                        if i < subs.len() {
+                            let c = std::mem::replace(&mut subs[i], Node::False);
+                            subs[i] = match c {
+                                Node::Alt(x) | Node::Swap(x) => {
+                                    if src.bool() {
+                                        *x
+                                    } else {
+                                        wrap(src, *x)
+                                    }
+                                }
+                                other => wrap(src, other),
+                            };
+                        }
+                        Node::Thresh(k, subs)
+                    }
+                    2 => {
+                        let i = src.below(subs.len().max(1));
+                        if i < subs.len() {
+                            subs[i] = leaf_b(src, cfg, &mut st);
+                        }
+                        Node::Thresh(k, subs)
+                    }
+                    _ => Node::Thresh(src.range(1, subs.len().max(1)), subs),
+                }
+            }
+            leaf => match src.below(4) {
+                0 => wrap(src, leaf),
+                1 => leaf_b(src, cfg, &mut st),
+                2 => leaf_k(src, cfg, &mut st),
+                _ => {
+                    let w = wrap(src, leaf);
+                    wrap(src, w)
+                }
+            },
+        };
+        *target = new;
+    }
+    out
 }
